@@ -21,6 +21,10 @@ type c05Scenario struct {
 	// exists), renames rules/old.yml and adds Extra as rules/extra.yml
 	Layout string `json:"layout,omitempty"`
 	Extra  string `json:"extra,omitempty"`
+	// Blocks: the configuration is the concatenation of these rule{} blocks; besides the normal runs pint is run once per
+	// SINGLE block, and the exit status of the full configuration must be non-zero iff some single-block run reports a problem
+	// >= --fail-on (a reference that does not go through the folding of pint's own report)
+	Blocks []string `json:"blocks,omitempty"`
 }
 
 type c05Run struct {
@@ -34,6 +38,8 @@ type c05Run struct {
 	TeamCity     bool `json:"teamcity,omitempty"`
 	CheckStyle   bool `json:"checkstyle,omitempty"`
 	RequireOwner bool `json:"require_owner,omitempty"`
+	Block        int  `json:"single_block,omitempty"` // k > 0: configuration = block k-1 of the scenario alone
+	Workers1     bool `json:"workers_1,omitempty"`
 	Sevs     []string     `json:"severities"`
 	JSONOK   bool         `json:"json_present"`
 	// control-flow strata: an injected infrastructure fault (the stage of actionLint/actionCI that must return an error),
@@ -184,6 +190,44 @@ func runC05(args []string) int {
 		c05Scenario{Rules: uses, Config: "rule {\n  report {\n    comment = \"r\"\n    severity = \"info\"\n  }\n}\n", Layout: "deleted",
 			Extra: hdr + "  - record: extra\n    expr: sum(up)\n"},
 	)
+	// two check INSTANCES (different String()) emitting identical text with different severities on the SAME rule and lines
+	blk := func(kind, key, extra, sev string) string {
+		return fmt.Sprintf("rule {\n  %s %q {\n    required = true\n%s    severity = %q\n  }\n}\n", kind, key, extra, sev)
+	}
+	for i, lo := range c05Sevs {
+		for _, hi := range c05Sevs[i+1:] {
+			for _, order := range [][2]string{{lo, hi}, {hi, lo}} {
+				for _, kind := range []string{"annotation", "label"} {
+					key, val := "summary", "    value = \"ok.*\"\n"
+					if kind == "label" {
+						key, val = "team", "    value = \"a|b\"\n"
+					}
+					bs := []string{blk(kind, key, "", order[0]), blk(kind, key, val, order[1])}
+					grid = append(grid, c05Scenario{Rules: hdr + "  - alert: A\n    expr: up == 0\n", Config: strings.Join(bs, ""), Blocks: bs})
+				}
+			}
+		}
+	}
+	// size extremes of the input: one source line far beyond 64 KiB, a very long value, very many rules — with problems of a
+	// single low severity, so that every reporter has to render them
+	var hosts []string
+	for k := 0; k < 9000; k++ {
+		hosts = append(hosts, fmt.Sprintf("host%d", k))
+	}
+	long := strings.Join(hosts, "|")
+	var many strings.Builder
+	many.WriteString(hdr)
+	for k := 0; k < 400; k++ {
+		fmt.Fprintf(&many, "  - record: r%d\n    expr: up\n", k)
+	}
+	repCfg := func(sev string) string {
+		return fmt.Sprintf("rule {\n  report {\n    comment = \"size\"\n    severity = %q\n  }\n}\n", sev)
+	}
+	grid = append(grid,
+		c05Scenario{Rules: hdr + "  - alert: Long\n    expr: up{instance=~\"" + long + "\"} == 0\n", Config: repCfg("warning")},
+		c05Scenario{Rules: hdr + "  - alert: Long\n    expr: up == 0\n    annotations:\n      summary: \"" + long + "\"\n", Config: repCfg("info")},
+		c05Scenario{Rules: many.String(), Config: repCfg("warning")},
+	)
 	scen = append(grid, scen...)
 
 	var runs []c05Run
@@ -290,6 +334,18 @@ func runC05(args []string) int {
 			runs = append(runs, c05Run{Scenario: si, CI: true, FailOn: &fat, Branch: "feature", Base: "main", NoChange: true, RequireOwner: true})
 			runs = append(runs, c05Run{Scenario: si, FailOn: &fat, RequireOwner: true})
 		}
+		for k, b := range scen[si].Blocks {
+			writeFile(filepath.Join(dir, fmt.Sprintf("blk_%d.hcl", k+1)), b)
+		}
+		if len(scen[si].Blocks) > 0 {
+			fatal := "fatal"
+			for k := range scen[si].Blocks {
+				runs = append(runs, c05Run{Scenario: si, FailOn: &fatal, Block: k + 1, Workers1: true})
+			}
+			for _, fo := range failOns {
+				runs = append(runs, c05Run{Scenario: si, FailOn: fo, Workers1: true})
+			}
+		}
 		for _, fo := range failOns {
 			for k, ms := range minSevs {
 				// full product for lint on a third of the scenarios, otherwise a rotating sample
@@ -303,10 +359,10 @@ func runC05(args []string) int {
 	}
 	for i := range runs {
 		runs[i].ID = i
-		if runs[i].Fault == "" && !runs[i].RequireOwner {
+		if runs[i].Fault == "" && !runs[i].RequireOwner && runs[i].Block == 0 {
 			runs[i].TeamCity = r.Intn(5) == 0
 			runs[i].CheckStyle = r.Intn(5) == 0
-			runs[i].RequireOwner = r.Intn(8) == 0
+			runs[i].RequireOwner = r.Intn(8) == 0 && !runs[i].Workers1
 		}
 	}
 	parallel(len(runs), 16, func(i int) {
@@ -330,7 +386,13 @@ func runC05(args []string) int {
 		case "submit-fails":
 			jsonArg = "/dev/full"
 		}
+		if ru.Block > 0 {
+			cfgArg = fmt.Sprintf("../blk_%d.hcl", ru.Block)
+		}
 		a = append(a, "--no-color", "-c", cfgArg)
+		if ru.Workers1 {
+			a = append(a, "--workers", "1")
+		}
 		switch ru.Fault {
 		case "workers":
 			a = append(a, "--workers", "0")
@@ -518,6 +580,45 @@ func runC05(args []string) int {
 		if reach != (ru.Exit != 0) {
 			rep.fail(fmt.Sprint(ru.ID), fmt.Sprintf("exit status %d but problem reaching --fail-on=%s present=%v (severities %v)", ru.Exit, fo, reach, ru.Sevs),
 				map[string]any{"run": ru, "scenario": scen[ru.Scenario]})
+		}
+	}
+	// union-of-single-blocks oracle
+	union := map[int][]string{}
+	okBlocks := map[int]int{}
+	for _, ru := range runs {
+		if ru.Block > 0 && ru.JSONOK && ru.Exit >= 0 && ru.Exit <= 1 {
+			union[ru.Scenario] = append(union[ru.Scenario], ru.Sevs...)
+			okBlocks[ru.Scenario]++
+		}
+	}
+	for _, ru := range runs {
+		nb := len(scen[ru.Scenario].Blocks)
+		if nb == 0 || ru.Block > 0 || ru.CI || ru.Fault != "" || ru.RequireOwner || okBlocks[ru.Scenario] != nb || ru.Exit < 0 || ru.Exit > 1 {
+			continue
+		}
+		fo := 2
+		if ru.FailOn != nil {
+			rk, ok := flagRank[*ru.FailOn]
+			if !ok {
+				continue
+			}
+			fo = rk
+		}
+		if ru.MinSev != nil {
+			if _, ok := flagRank[*ru.MinSev]; !ok {
+				continue
+			}
+		}
+		reach := false
+		for _, sv := range union[ru.Scenario] {
+			if rk, ok := sevRank[sv]; ok && rk >= fo {
+				reach = true
+			}
+		}
+		rep.hist("oracle=union-of-single-blocks")
+		if reach != (ru.Exit != 0) {
+			rep.fail(fmt.Sprintf("union-%d", ru.ID), fmt.Sprintf("exit status %d of the full configuration, but the rule{} blocks run one at a time report severities %v (--fail-on rank %d): a problem reaching --fail-on present=%v; pint's own report lists %v",
+				ru.Exit, union[ru.Scenario], fo, reach, ru.Sevs), map[string]any{"run": ru, "scenario": scen[ru.Scenario]})
 		}
 	}
 	cw.flush()
